@@ -6,23 +6,207 @@ import PyGqlModel.StringUtils
 import PyGqlModel.Lemmas.LexRange
 import PyGqlModel.Lemmas.LexRender
 import PyGqlModel.Lemmas.LexChars
+import PyGqlModel.Lemmas.LexTiles
+import PyGqlModel.Lemmas.LexComplete
 
 namespace PyGql.Props.C01
 open PyGql.Lex PyGql.StringUtils
+open PyGql.Spec.Lexical (Tiles IgnRun Lexeme Follow)
 
-private theorem lexLoop_bounded (n fuel : Nat) (s : Text) : Bounded n (lexLoop n fuel s) := by
+private theorem lexLoop_bounded (n fuel : Nat) (s : Text) : ∀ e, lexLoop n fuel s = .error e → ErrPos n e := by
   induction fuel generalizing s with
-  | zero => exact bounded_error _ _ (ErrOK.inside (Nat.zero_le _))
+  | zero => intro e he; simp only [lexLoop, Except.error.injEq] at he; subst he; exact Or.inl (Nat.zero_le _)
   | succ fuel ih =>
     intro e he
     unfold lexLoop at he
     split at he
-    · rename_i e' h'; cases he; exact next_bounded n s _ h'
+    · rename_i e' h'; cases he; exact (next_bounded n s _ h').1
     · cases he
     · rename_i tok rest h'
       split at he
       · cases he
       · rename_i e' h''; cases he; exact ih rest _ h''
+
+/-- with more fuel than unread characters the loop never runs out of fuel: every `__next__` that returns a token
+    consumes at least one character -/
+private theorem lexLoop_fuel (n fuel : Nat) (s : Text) (hf : s.length < fuel) :
+    ∀ e, lexLoop n fuel s = .error e → e.kind ≠ .fuel := by
+  induction fuel generalizing s with
+  | zero => omega
+  | succ fuel ih =>
+    intro e he
+    unfold lexLoop at he
+    split at he
+    · rename_i e' h'; cases he; exact (next_bounded n s _ h').2
+    · cases he
+    · rename_i tok rest h'
+      split at he
+      · cases he
+      · rename_i e' h''
+        cases he
+        obtain ⟨ign, lex, hs, _, _, _, hne, _, _⟩ := next_sound n s rest tok h'
+        have : rest.length < s.length := by
+          rw [hs]; cases lex with
+          | nil => exact absurd rfl hne
+          | cons x xs => simp; omega
+        exact ih rest (by omega) _ h''
+
+/-- `lex_fuel_sufficient`: the fuel `len(source) + 1` of `lexAll` is always enough — the model's `fuel` error never
+    occurs, so fuel does not appear in any statement about `lexAll`. -/
+theorem lex_fuel_sufficient (s : Text) (e : SynErr) (h : lexAll s = .error e) : e.kind ≠ .fuel := by
+  unfold lexAll at h
+  split at h
+  · cases h
+  · rename_i e' h'; cases h; exact lexLoop_fuel _ _ _ (Nat.lt_succ_self _) _ h'
+
+private theorem lexLoop_sound (n fuel : Nat) (s : Text) (toks : List Tok) (h : lexLoop n fuel s = .ok toks) :
+    Tiles n s toks := by
+  induction fuel generalizing s toks with
+  | zero => simp [lexLoop] at h
+  | succ fuel ih =>
+    unfold lexLoop at h
+    split at h
+    · cases h
+    · rename_i tok h'
+      simp only [Except.ok.injEq] at h; subst h
+      obtain ⟨rfl, hrun⟩ := next_eof n s tok h'
+      exact .eof s hrun
+    · rename_i tok rest h'
+      split at h
+      · rename_i toks' h''
+        simp only [Except.ok.injEq] at h; subst h
+        obtain ⟨ign, lex, hs, hrun, hlx, hfo, _, hst, hsp⟩ := next_sound n s rest tok h'
+        have htok : tok = ⟨tok.kind, n - (lex ++ rest).length, n - rest.length, tok.value⟩ := by
+          cases tok; simp_all
+        rw [hs, htok]
+        exact .tok ign lex rest tok.kind tok.value toks' hrun hlx hfo (ih rest toks' h'')
+      · cases h
+
+/-- `lex_sound`: whenever the lexer accepts a text, the text is TILED by its tokens: it is the concatenation of
+    ignored runs (BOM, white space, line terminators, commas, maximal comments) and lexemes, in order; each lexeme is a
+    complete lexeme of its token's kind according to the recognisers of Spec/Lexical.lean (Punctuator, Name, IntValue,
+    FloatValue, StringValue, block StringValue) and the token carries the lexeme's span and its value (verbatim text for
+    names and numbers, the decoded semantic value for strings, `BlockStringValue` for block strings); what follows each
+    lexeme obeys maximal munch and the number look-ahead (`Follow`). -/
+theorem lex_sound (s : Text) (toks : List Tok) (h : lexAll s = .ok toks) :
+    ∃ body, toks = sofTok :: body ∧ Tiles s.length s body := by
+  unfold lexAll at h
+  split at h
+  · rename_i body h'
+    simp only [Except.ok.injEq] at h
+    exact ⟨body, h.symm, lexLoop_sound _ _ _ _ h'⟩
+  · cases h
+
+/-- non-vacuity of `lex_sound`: `{a,1.5e05 #c<LF><BOM>"\\n" ...}` (comma, comment, BOM) is accepted -/
+example : (lexAll [123, 97, 44, 49, 46, 53, 101, 48, 53, 32, 35, 99, 10, 65279, 34, 92, 110, 34, 32, 46, 46, 46, 125]).toOption.map (·.map (·.kind)) =
+    some [.sof, .curlyL, .name, .float, .string, .ellip, .curlyR, .eof] := by decide
+
+/-! ### completeness: `lex_render` -/
+
+/-- THE FULL STATEMENT `lex_render`: every tiling of a text by ignored runs and complete lexemes (each followed by
+    something its kind allows) is what the lexer returns — so the choice of ignored runs is irrelevant. -/
+def LexRenderStatement : Prop :=
+  ∀ (s : Text) (body : List Tok), Tiles s.length s body → lexAll s = .ok (sofTok :: body)
+
+/-- token kinds for which the completeness of `__next__` is proved: punctuators, `...`, names, quoted strings -/
+def Rendered (k : TokKind) : Prop := k ≠ .int ∧ k ≠ .float ∧ k ≠ .blockString
+
+private theorem lexeme_ne_nil (k : TokKind) (lex v : Text) (hk : Rendered k) (hl : Lexeme k lex v) : lex ≠ [] := by
+  intro h; subst h
+  cases k <;> simp [Lexeme, Spec.Lexical.punctuator, TokKind.constText, Spec.Lexical.isName,
+    Spec.Lexical.stringValue, Rendered] at hl hk
+
+private theorem next_complete (n : Nat) (ign lex rest v : Text) (k : TokKind) (hk : Rendered k)
+    (hrun : IgnRun (lex ++ rest) ign) (hl : Lexeme k lex v) (hf : Follow k lex rest) :
+    next n (ign ++ (lex ++ rest)) = .ok (tokAt n k lex rest v, some rest) := by
+  have punct : ∀ c, Spec.Lexical.punctuator k = some [c] → lex = [c] → v = [c] →
+      next n (ign ++ (lex ++ rest)) = .ok (tokAt n k lex rest v, some rest) := by
+    intro c hp hlex hv
+    subst hlex; subst hv
+    exact next_punct n ign rest c k ((symbolKind_spec c k).mpr hp) hrun
+  cases k with
+  | sof => exact absurd hl (by simp [Lexeme])
+  | eof => exact absurd hl (by simp [Lexeme])
+  | int => exact absurd rfl hk.1
+  | float => exact absurd rfl hk.2.1
+  | blockString => exact absurd rfl hk.2.2
+  | name =>
+    obtain ⟨h1, h2⟩ := hl
+    subst h2
+    exact next_name n ign _ rest h1 hf hrun
+  | string => exact next_string n ign lex rest v hl hf hrun
+  | ellip =>
+    simp only [Lexeme, Spec.Lexical.punctuator, TokKind.constText, Option.some.injEq] at hl
+    obtain ⟨rfl, rfl⟩ := hl
+    exact next_ellip n ign rest hrun
+  | bang | dollar | parenL | parenR | bracketL | bracketR | curlyL | curlyR | colon | equals | atSign | pipe | amp =>
+    simp only [Lexeme, Spec.Lexical.punctuator, TokKind.constText, Option.some.injEq] at hl
+    obtain ⟨rfl, rfl⟩ := hl
+    exact punct _ rfl rfl rfl
+
+private theorem lexLoop_complete (n : Nat) (s : Text) (toks : List Tok) (h : Tiles n s toks)
+    (hk : ∀ t ∈ toks, t.kind = .eof ∨ Rendered t.kind) :
+    ∀ fuel, s.length < fuel → lexLoop n fuel s = .ok toks := by
+  induction h with
+  | eof ign hrun =>
+    intro fuel hf
+    cases fuel with
+    | zero => omega
+    | succ f =>
+      have : next n ign = .ok (eofTok n, none) := by
+        have := row_complete [] ign hrun rfl
+        rw [List.append_nil] at this
+        unfold next; rw [this]
+      simp [lexLoop, this, eofTok]
+  | tok ign lex rest k v toks hrun hl hfo _ ih =>
+    intro fuel hf
+    cases fuel with
+    | zero => omega
+    | succ f =>
+      have hkk : Rendered k := by
+        rcases hk _ (List.mem_cons_self) with h | h
+        · simp only at h; subst h; exact absurd hl (by simp [Lexeme])
+        · exact h
+      have hne := lexeme_ne_nil k lex v hkk hl
+      have hnext := next_complete n ign lex rest v k hkk hrun hl hfo
+      have hlen : rest.length < f := by
+        cases lex with
+        | nil => exact absurd rfl hne
+        | cons x xs => simp at hf; omega
+      have := ih (fun t ht => hk t (List.mem_cons_of_mem _ ht)) f hlen
+      simp [lexLoop, hnext, this, tokAt]
+
+/-- `lex_render_partial`: for every tiling whose tokens are punctuators, `...`, names or quoted strings, `lexAll` returns
+    exactly the tiling's tokens (kinds, spans, values) — whatever ignored runs (white space, line terminators, commas,
+    BOMs, comments) stand between the lexemes, as long as each lexeme is followed by something its kind allows (`Follow`:
+    a name is not directly followed by a name character; `""` not by `"`).
+    MISSING for the full `LexRenderStatement`: completeness of `_read_number` against `isIntValue` / `isFloatValue` and of
+    `_read_block_string` against `blockStringRaw` (their soundness is in `lex_sound`); covered by the correspondence
+    (token sequences under random ignored runs, oracle O3). -/
+theorem lex_render_partial (s : Text) (body : List Tok) (h : Tiles s.length s body)
+    (hk : ∀ t ∈ body, t.kind = .eof ∨ Rendered t.kind) : lexAll s = .ok (sofTok :: body) := by
+  unfold lexAll
+  rw [lexLoop_complete _ _ _ h hk _ (Nat.lt_succ_self _)]
+
+/-- kind and value of a token (what is left when positions are forgotten) -/
+def kv (t : Tok) : TokKind × Text := (t.kind, t.value)
+
+/-- `lex_ignored_invariant_partial`: ignored characters are insignificant. If the lexer accepts `s₁`, then every other
+    text `s₂` tiled by lexemes with the same kinds and values (i.e. `s₁` with its ignored runs replaced by any other
+    admissible ignored runs) is accepted with the same kinds and values. (Partial as `lex_render_partial`: the tokens
+    are punctuators, `...`, names and quoted strings.) -/
+theorem lex_ignored_invariant_partial (s₁ s₂ : Text) (toks₁ body₂ : List Tok) (h₁ : lexAll s₁ = .ok toks₁)
+    (h₂ : Tiles s₂.length s₂ body₂) (hk : ∀ t ∈ body₂, t.kind = .eof ∨ Rendered t.kind)
+    (hsame : toks₁.tail.map kv = body₂.map kv) :
+    ∃ toks₂, lexAll s₂ = .ok toks₂ ∧ toks₂.map kv = toks₁.map kv := by
+  obtain ⟨body₁, rfl, _⟩ := lex_sound s₁ toks₁ h₁
+  refine ⟨sofTok :: body₂, lex_render_partial s₂ body₂ h₂ hk, ?_⟩
+  simp only [List.tail_cons] at hsame
+  simp [hsame]
+
+/-- non-vacuity: `{a}` and ` { ,a #c<LF>}` have the same tokens up to positions -/
+example : ((lexAll [123, 97, 125]).toOption.map (·.map kv)) =
+    ((lexAll [32, 123, 32, 44, 97, 32, 35, 99, 10, 125]).toOption.map (·.map kv)) := by decide
 
 /-- THE FULL STATEMENT of the property's error clause for the lexer: every syntax error reports a
     position inside the submitted text. It is FALSE on today's code (see `error_in_range_refuted`). -/
@@ -67,7 +251,7 @@ theorem render_total (source : Text) (position : Nat) :
 theorem index_to_loc_total_iff (body : Text) (p : Nat) : (indexToLoc body p).isSome = true ↔ p ≤ body.length := by
   constructor
   · intro h
-    unfold indexToLoc at h
+    unfold indexToLoc Response.indexToLoc at h
     split at h
     · rename_i hc; simp at hc; omega
     · split at h
@@ -81,6 +265,8 @@ theorem index_to_loc_total_iff (body : Text) (p : Nat) : (indexToLoc body p).isS
 example : highlightLocation [34, 92] 3 = none := by decide
 example : (highlighted [34, 92] 3).isSome = true := by decide
 example : indexToLoc [97, 10, 98] 3 = some (2, 2) := by decide
+/-- fix X4: CRLF is ONE line break, a lone CR is one too -/
+example : indexToLoc [97, 13, 10, 98, 13, 99] 6 = some (3, 2) := by decide
 
 /-! ### the extracted tables denote the specification's character classes
     (re-proved against `Generated/LexTables.lean` on every run) -/
